@@ -15,9 +15,9 @@ go build ./... || { echo "$id$2: does not build"; exit 2; }
 s1=$(go test -vet=off -count=1 ./... 2>&1 | grep -c "^FAIL")
 cp $out/demo_test.go $wt/$dest
 pkg=./$(dirname $dest)
-d1=$(go test -vet=off -count=1 -run 'Seed' $pkg 2>&1 | grep -c "^FAIL\|^--- FAIL")
+d1=$(go test $SEED_DEMO_FLAGS -vet=off -count=1 -run 'Seed' $pkg 2>&1 | grep -c "^FAIL\|^--- FAIL")
 git apply -R $out/patch.diff
-d2=$(go test -vet=off -count=1 -run 'Seed' $pkg 2>&1 | grep -c "^FAIL\|^--- FAIL")
-okrun=$(go test -vet=off -count=1 -run 'Seed' -v $pkg 2>&1 | grep -c "^--- PASS")
+d2=$(go test $SEED_DEMO_FLAGS -vet=off -count=1 -run 'Seed' $pkg 2>&1 | grep -c "^FAIL\|^--- FAIL")
+okrun=$(go test $SEED_DEMO_FLAGS -vet=off -count=1 -run 'Seed' -v $pkg 2>&1 | grep -c "^--- PASS")
 rm -f $wt/$dest
 echo "$id$2: dest=$dest suite_with_change_failures=$s1 demo_with_change_failures=$d1 demo_without_change_failures=$d2 demo_without_change_passes=$okrun"
